@@ -18,8 +18,9 @@ Inductive case :=
 | CList (path : N) (es : list entry) (len : option N) (probes : list probe)
   (** load es1, Sort, probe, append es2 to the sorted list, Sort again, probe *)
 | CIncr (es1 es2 : list entry) (len1 len2 : N) (probes1 probes2 : list probe)
-  (** ip_set plugin with own entries and referenced ip_set plugins *)
-| CGroup (own : list entry) (sets : list (list entry)) (probes : list probe)
+  (** ip_set plugins composed through "sets:" references to any depth; the
+      probes were put to the matcher (MatcherGroup.Match) of the top set *)
+| CGroup (top : setdef) (probes : list probe)
   (** a loader input whose line/entry number [bad] (1-based for text, 0-based
       for Args.IPs) is malformed: observed position reported in the error;
       [es] = the entries before it, which the text loaders have appended *)
@@ -41,9 +42,7 @@ Definition agree (c : case) : bool :=
     let e2 := sort_with isort (e1 ++ load es2) in
     len_agree e1 (Some len1) && probes_agree (lookup e1) probes1
     && len_agree e2 (Some len2) && probes_agree (lookup e2) probes2
-  | CGroup own sets probes =>
-    let g := ipset_build isort own (map (fun s => ipset_build isort s []) sets) in
-    probes_agree (group_lookup g) probes
+  | CGroup top probes => probes_agree (group_lookup (build_set isort top)) probes
   | CBad _ es bad obs probes =>
     (bad =? obs) && probes_agree (lookup (sort_with isort (load es))) probes
   end.
@@ -72,11 +71,17 @@ Definition s_cov (es : list entry) (q : query) : bool :=
 Definition probes_spec (es : list entry) (ps : list probe) : bool :=
   forallb (fun p => Bool.eqb (snd p) (s_cov es (fst p))) ps.
 
+(** every entry of a configuration, collected without the model's functions *)
+Fixpoint s_entries (s : setdef) : list entry :=
+  match s with
+  | SetDef own refs => fold_right (fun r acc => s_entries r ++ acc) own refs
+  end.
+
 Definition spec (c : case) : bool :=
   match c with
   | CList _ es _ probes => probes_spec es probes
   | CIncr es1 es2 _ _ probes1 probes2 => probes_spec es1 probes1 && probes_spec (es1 ++ es2) probes2
-  | CGroup own sets probes => probes_spec (own ++ concat sets) probes
+  | CGroup top probes => probes_spec (s_entries top) probes
   | CBad _ es bad obs probes => (bad =? obs) && probes_spec es probes
   end.
 
@@ -105,7 +110,7 @@ Definition nontrivial (c : case) : bool :=
   match c with
   | CList _ es _ probes => has_related es && existsb (near es) probes
   | CIncr es1 es2 _ _ p1 p2 => has_related (es1 ++ es2) && existsb (near (es1 ++ es2)) (p1 ++ p2)
-  | CGroup own sets probes =>
-    let es := own ++ concat sets in has_related es && existsb (near es) probes
+  | CGroup top probes =>
+    let es := s_entries top in has_related es && existsb (near es) probes
   | CBad _ es _ _ probes => has_related es && existsb (near es) probes
   end.
